@@ -734,7 +734,7 @@ fn main() {
     // ---------------- the pool: curated specials + random ----------------
     let mut vals = curated();
     let n_curated = vals.len();
-    let n_random = args.n(140, 700) as usize;
+    let n_random = args.n(300, 1200) as usize;
     for _ in 0..n_random {
         vals.push(random_value(&mut rng));
     }
